@@ -14,6 +14,8 @@ def evJson : REv → Json
   | .dealt d h => Json.arr #[.str "dealt", ofRat d, ofRat h]
   | .keydownEnd => Json.arr #[.str "keydown_end"]
   | .addDot d l => Json.arr #[.str "add_dot", ofRat d, ofInt l]
+  | .dealtMod d h m => Json.arr #[.str "dealt_mod", ofRat d, ofRat h, .str m]
+  | .custom t p => Json.arr #[.str "custom", .str t, .str p]
 
 def evsJson (evs : List REv) : Json := .arr (evs.map evJson).toArray
 def out (state : Json) (evs : List REv) : Json := Json.mkObj [("state", state), ("events", evsJson evs)]
@@ -159,11 +161,19 @@ def modelledClasses : List String :=
 
 def component (fn : String) (j : Json) : Option (Except String Json) :=
   match fn with
-  | "reducer" => some do
-      reducer (← str (← field j "cls")) (← str (← field j "method")) (← field j "params") (← field j "state")
-        (fieldD j "payload" .null)
-  | "cview" => some do
-      cview (← str (← field j "cls")) (← str (← field j "view")) (← field j "params") (← field j "state")
+  | "reducer" =>
+      -- answer only for the classes modelled here; other handlers (part drivers) take the rest
+      match j.getObjVal? "cls" >>= Json.getStr? with
+      | .ok c => if modelledClasses.contains c then some do
+            reducer c (← str (← field j "method")) (← field j "params") (← field j "state") (fieldD j "payload" .null)
+          else none
+      | .error _ => none
+  | "cview" =>
+      match j.getObjVal? "cls" >>= Json.getStr? with
+      | .ok c => if modelledClasses.contains c then some do
+            cview c (← str (← field j "view")) (← field j "params") (← field j "state")
+          else none
+      | .error _ => none
   | "modelled_classes" => some (pure (.arr (modelledClasses.map Json.str).toArray))
   | _ => none
 
